@@ -210,6 +210,11 @@ class Executor:
         if fr.closure is not None and name in fr.closure:
             return fr.closure[name]
         mod = fr.module
+        # a sibling nested function (defined in the same enclosing function): it sees the same enclosing scope
+        if fr.closure is not None and "." in fr.qualname:
+            sib = fr.qualname.rsplit(".", 1)[0] + "." + name
+            if sib in mod.functions and fr.qualname.rsplit(".", 1)[0] not in mod.classes:
+                return SV(FUNCT, FuncD(mod, sib, closure=fr.closure))
         return self.module_name(mod, name, st)
 
     def module_instance(self, mod: extract.Module, name: str, st):
@@ -1056,9 +1061,22 @@ class Executor:
             yield from self.trace_call(node, st, sink)
             return
         if isinstance(f, ast.Name) and f.id == "cast" and len(node.args) == 2:
-            tname = node.args[0].id if isinstance(node.args[0], ast.Name) else (node.args[0].value if isinstance(node.args[0], ast.Constant) else None)
+            tname = node.args[0].id if isinstance(node.args[0], ast.Name) else (node.args[0].value if isinstance(node.args[0], ast.Constant) else ast.unparse(node.args[0]))
             for st1, v in self.ev(node.args[1], st, sink):
                 hook = self.w.call_hooks.get(("cast", tname))
+                if hook is None and isinstance(tname, str):
+                    # the same type spelled as a string, or widened by `| None` / Optional[...]: what the value is does not depend on the spelling
+                    t2 = tname.strip()
+                    if len(t2) >= 2 and t2[0] in "'\"" and t2[-1] == t2[0]:
+                        t2 = t2[1:-1].strip()
+                    for pat in (" | None", "|None"):
+                        if t2.endswith(pat):
+                            t2 = t2[: -len(pat)].strip()
+                    if t2.startswith("None | "):
+                        t2 = t2[len("None | "):].strip()
+                    if t2.startswith("Optional[") and t2.endswith("]"):
+                        t2 = t2[len("Optional["):-1].strip()
+                    hook = self.w.call_hooks.get(("cast", t2))
                 if hook is not None and v.ty.kind == "any":
                     v = hook(self, v)
                 yield st1, v
@@ -1243,6 +1261,8 @@ class Executor:
         self.depth += 1
         try:
             st.locals = dict(bound)
+            st.ghost = dict(st.ghost)
+            st.ghost["$caller_locals"] = saved_locals
             flows = self.exec_block(fn.body, st)
         finally:
             self.depth -= 1
@@ -2008,7 +2028,64 @@ class Executor:
             if fn is not None:
                 walk(fn)
         key = (f"{fr.module.modname}:{fr.qualname}", fr.loop_ids.get(id(node), -1))
-        return self.w.loops.get(key), key
+        spec = self.w.loops.get(key)
+        # Loops that were moved, unchanged, into a private helper method of the same class (called as a statement, no contract of its own, not virtual): the helper is
+        # inlined at the call anyway, so its loops are numbered as they are in the helper-inlined text of the function under check, where the sidecar's invariants live.
+        root = self.frames[0] if self.frames else fr
+        if node is not None and (spec is None or fr is root):
+            fl = self._flat_loops(root)
+            ent = fl.get((node.lineno, node.col_offset)) if fl else None
+            if ent is not None:
+                fidx, shifted = ent
+                rkey = (f"{root.module.modname}:{root.qualname}", fidx)
+                if rkey in self.w.loops and ((fr is not root and spec is None) or (fr is root and shifted)):
+                    return self.w.loops[rkey], rkey
+        return spec, key
+
+    def _flat_loops(self, root):
+        if hasattr(root, "flat_loops"):
+            return root.flat_loops
+        root.flat_loops = None
+        mod, q = root.module, root.qualname
+        own = mod.functions.get(q)
+        if own is None or "." not in q:
+            return None
+        has_contract = lambda hq: any(k.split("::")[-1].split("#")[0] == f"{mod.modname}:{hq}" for k in self.w.contracts)
+        try:
+            flat = extract.flat_func(mod, q, skip=has_contract)
+        except Exception:
+            return None
+
+        def loops(fn):
+            out = []
+
+            def walk(n):
+                for ch in ast.iter_child_nodes(n):
+                    if isinstance(ch, (ast.FunctionDef, ast.AsyncFunctionDef, ast.Lambda, ast.ClassDef)):
+                        continue
+                    if isinstance(ch, (ast.While, ast.For)):
+                        out.append((ch.lineno, ch.col_offset))
+                    walk(ch)
+
+            walk(fn)
+            return out
+
+        ownpos, flatpos = loops(own), loops(flat)
+        if len(flatpos) == len(ownpos):
+            return None
+        res, shifted = {}, False
+        helper_ord: dict[str, int] = {}
+        for i, pos in enumerate(flatpos):
+            if pos not in ownpos:
+                # a helper's loop: does it have an invariant under its own name?
+                hq = next((k for k, f in mod.functions.items() if k.count(".") == q.count(".") and f.lineno <= pos[0] <= (f.end_lineno or f.lineno) and k != q), None)
+                n = helper_ord.get(hq, 0)
+                helper_ord[hq] = n + 1
+                if (f"{mod.modname}:{hq}", n) not in self.w.loops:
+                    shifted = True
+            res[pos] = (i, shifted)
+        root.flat_loops = res
+        return res
 
     def assigned_names(self, stmts) -> set[str]:
         out = set()
